@@ -270,4 +270,123 @@ theorem ecmult_loop {pre1 prel : List XYZ} {A A' : CurvePt} {w1 wl wg1 wg128 : L
       simp [valD])
   simpa using h
 
+
+/-! ### assembly -/
+
+/-- a reference point known to be on the curve, as an element of the group of curve points -/
+def mkPt (Q : Secp.Point) (h : OnC Q) : CurvePt := ⟨Q, h⟩
+
+theorem onC_ptF (x y : F) : OnC (ptF x y) ↔ y * y = x ^ 3 + 7 := by
+  unfold OnC ptF Secp.onCurve
+  simp only [secp_p_eq, Bool.and_eq_true, decide_eq_true_eq, beq_iff_eq, ZMod.val_lt x, ZMod.val_lt y, true_and]
+  rw [← ZMod.natCast_eq_natCast_iff']
+  simp only [Nat.cast_add, Nat.cast_mul, ZMod.natCast_mod, ZMod.natCast_val, ZMod.cast_id', id_eq, Nat.cast_ofNat]
+  constructor <;> intro h <;> rw [h] <;> ring
+
+theorem feBeta_S : FeS feBeta 1 ((CurveConsts.beta : Nat) : F) := by
+  have hb : feBeta = ⟨2652195750478318, 2059588628732947, 3435101582848073, 124274446989802, 135142927197564⟩ := by
+    unfold feBeta Fe.ofNat setB32L
+    rw [show toB32 CurveConsts.beta = [122, 233, 106, 43, 101, 124, 7, 16, 110, 100, 71, 158, 172, 52, 52, 233, 156,
+      240, 73, 117, 18, 245, 137, 149, 193, 57, 108, 40, 113, 149, 1, 238] by decide +kernel]
+    decide +kernel
+  have h : (⟨2652195750478318, 2059588628732947, 3435101582848073, 124274446989802, 135142927197564⟩ : Fe).mag 1 ∧
+      (⟨2652195750478318, 2059588628732947, 3435101582848073, 124274446989802, 135142927197564⟩ : Fe).val
+        = CurveConsts.beta := by decide +kernel
+  rw [hb]
+  exact ⟨h.1, by unfold Fe.z; rw [h.2]⟩
+
+theorem beta_cube : ((CurveConsts.beta : Nat) : F) ^ 3 = 1 := by
+  have h : CurveConsts.beta ^ 3 % P = 1 % P := by decide +kernel
+  have := (ZMod.natCast_eq_natCast_iff' (CurveConsts.beta ^ 3) 1 P).2 h
+  push_cast at this
+  exact this
+
+theorem mulLambda_x (a : XYZ) : (XYZ.mulLambda a).x = mul a.x feBeta := rfl
+theorem mulLambda_y (a : XYZ) : (XYZ.mulLambda a).y = a.y := rfl
+theorem mulLambda_z (a : XYZ) : (XYZ.mulLambda a).z = a.z := rfl
+theorem mulLambda_inf (a : XYZ) : (XYZ.mulLambda a).inf = a.inf := rfl
+
+/-- `XYZ.mul_lambda` maps a curve point to a curve point (x ↦ β·x with β³ = 1) and keeps the contract -/
+theorem mulLambda_Rp {a : XYZ} (ha : a.ok) (hA : OnC a.toPoint) :
+    ∃ A' : CurvePt, Rp (XYZ.mulLambda a) A' := by
+  obtain ⟨hx, hy, hz, hz0⟩ := ha
+  have x' := (FeS.self hx).mul feBeta_S (by decide) (by decide)
+  have hok : (XYZ.mulLambda a).ok := by
+    unfold XYZ.ok
+    rw [mulLambda_x, mulLambda_y, mulLambda_z, mulLambda_inf]
+    exact ⟨mag_mono x'.1 (by decide), hy, hz, hz0⟩
+  cases hi : a.inf with
+  | true =>
+    refine ⟨0, hok, ?_⟩
+    rw [XYZ.toPoint_inf (by rw [mulLambda_inf]; exact hi)]; rfl
+  | false =>
+    have hz1 := hz0 hi
+    rw [XYZ.toPoint_fin hi, onC_ptF] at hA
+    have e : (XYZ.mulLambda a).toPoint
+        = ptF (((CurveConsts.beta : Nat) : F) * (a.x.z / a.z.z ^ 2)) (a.y.z / a.z.z ^ 3) := by
+      rw [XYZ.toPoint_fin (by rw [mulLambda_inf]; exact hi), mulLambda_x, mulLambda_y, mulLambda_z, x'.2]
+      congr 1; ring
+    have hon : OnC (XYZ.mulLambda a).toPoint := by
+      rw [e, onC_ptF, hA, mul_pow, beta_cube, one_mul]
+    exact ⟨⟨_, hon⟩, hok, rfl⟩
+
+theorem split_nsmul (ng : Nat) :
+    ((ng % 2 ^ 128 : Nat) : Int) • Gc + ((ng / 2 ^ 128 : Nat) : Int) • G128c = ng • Gc := by
+  unfold G128c
+  rw [natCast_zsmul, natCast_zsmul, ← mul_nsmul, ← add_nsmul, Nat.mod_add_div]
+
+/-- `XYZ.ECmult(a, na, ng)` for EVERY point a within the contract that is on the curve, EVERY integer na and
+    every ng < 2^256: no panic, the result is within the contract and stands for
+    na1·A + na_lam·A' + ng·G with (na1, na_lam) = split_exp(na) and A' the point `mul_lambda` makes of A. -/
+theorem ecmult_sum (a : XYZ) (ha : a.ok) (hA : OnC a.toPoint) (na : Int) (ng : Nat) (hng : ng < 2 ^ 256) :
+    ∃ (r : XYZ) (A A' : CurvePt), A.1 = a.toPoint ∧ Rp (XYZ.mulLambda a) A' ∧ ecmult a na ng = some r ∧
+      Rp r ((splitExp na).1 • A + (splitExp na).2 • A' + ng • Gc) := by
+  obtain ⟨A', hA'⟩ := mulLambda_Rp ha hA
+  have hRa : Rp a (mkPt a.toPoint hA) := ⟨ha, rfl⟩
+  obtain ⟨b1, b2, b3, b4⟩ := splitExp_bound na
+  have e128 : (2 : Int) ^ 128 = 340282366920938463463374607431768211456 := by norm_num
+  have hg1 : ng % 2 ^ 128 < 2 ^ 128 := Nat.mod_lt _ (by positivity)
+  have hg2 : ng / 2 ^ 128 < 2 ^ 128 := by
+    rw [Nat.div_lt_iff_lt_mul (by positivity)]
+    calc ng < 2 ^ 256 := hng
+      _ = 2 ^ 128 * 2 ^ 128 := by norm_num
+  obtain ⟨w1, h1, v1, d1, -⟩ := wnaf_ok (splitExp na).1 CurveConsts.windowa (by decide) (by rw [e128]; omega) (by rw [e128]; omega)
+  obtain ⟨wl, h2, v2, d2, -⟩ := wnaf_ok (splitExp na).2 CurveConsts.windowa (by decide) (by rw [e128]; omega) (by rw [e128]; omega)
+  obtain ⟨wg1, h3, v3, d3, -⟩ := wnaf_ok ((ng % 2 ^ 128 : Nat) : Int) CurveConsts.windowg (by decide)
+    (by have := pow_pos_int 128; omega) (by exact_mod_cast hg1.le)
+  obtain ⟨wg128, h4, v4, d4, -⟩ := wnaf_ok ((ng / 2 ^ 128 : Nat) : Int) CurveConsts.windowg (by decide)
+    (by have := pow_pos_int 128; omega) (by exact_mod_cast hg2.le)
+  have hstart : Rp { a with inf := true } 0 :=
+    ⟨⟨ha.1, ha.2.1, ha.2.2.1, fun h => by simp at h⟩, XYZ.toPoint_inf rfl⟩
+  have hloop := ecmult_loop (precomp_TabJ hRa CurveConsts.windowa) (precomp_TabJ hA' CurveConsts.windowa)
+    d1 d2 d3 d4 _ hstart (max (max w1.length wl.length) (max wg1.length wg128.length))
+    (le_trans (le_max_left _ _) (le_max_left _ _)) (le_trans (le_max_right _ _) (le_max_left _ _))
+    (le_trans (le_max_left _ _) (le_max_right _ _)) (le_trans (le_max_right _ _) (le_max_right _ _))
+  rw [v1, v2, v3, v4, add_assoc, split_nsmul] at hloop
+  refine ⟨_, mkPt a.toPoint hA, A', rfl, hA', ?_, hloop⟩
+  unfold ecmult split
+  simp only [h1, h2, h3, h4, Option.bind_eq_bind, Option.bind_some, Option.pure_def]
+
+/-- … hence na·A + ng·G, given the two facts about A that follow from #E(F_p) = n (not proved here, explicit
+    hypotheses): n·A = 0 (Lagrange) and mul_lambda(A) = λ·A (the endomorphism acts on the cyclic group as λ). -/
+theorem ecmult_mul (a : XYZ) (ha : a.ok) (hA : OnC a.toPoint) (na : Int) (ng : Nat) (hng : ng < 2 ^ 256)
+    (hn : ((CurveConsts.order : Nat) : Int) • mkPt a.toPoint hA = 0)
+    (hl : ∀ A' : CurvePt, Rp (XYZ.mulLambda a) A' → A' = ((CurveConsts.lambda : Nat) : Int) • mkPt a.toPoint hA) :
+    ∃ r, ecmult a na ng = some r ∧ Rp r (na • mkPt a.toPoint hA + ng • Gc) := by
+  obtain ⟨r, A, A', hAe, hA', hr, hR⟩ := ecmult_sum a ha hA na ng hng
+  have hAeq : A = mkPt a.toPoint hA := Subtype.ext hAe
+  subst hAeq
+  refine ⟨r, hr, ?_⟩
+  rw [hl A' hA'] at hR
+  have hs := splitExp_sound na
+  obtain ⟨k, hk⟩ := Int.dvd_of_emod_eq_zero hs
+  have e : (splitExp na).1 • mkPt a.toPoint hA
+      + (splitExp na).2 • (((CurveConsts.lambda : Nat) : Int) • mkPt a.toPoint hA)
+      = na • mkPt a.toPoint hA := by
+    rw [← mul_smul, ← add_smul]
+    have : (splitExp na).1 + (splitExp na).2 * ((CurveConsts.lambda : Nat) : Int)
+        = na + k * ((CurveConsts.order : Nat) : Int) := by linarith
+    rw [this, add_smul, mul_smul, hn, smul_zero, add_zero]
+  rw [e] at hR
+  exact hR
 end GocoinV.C08
